@@ -250,7 +250,8 @@ def _cond(v, pol):
 
 
 def extract_printer_table(model, mapper_key=f"{STR}:StringifyMapper",
-                          node_names=None, custom=None) -> PrinterTable:
+                          node_names=None, custom=None,
+                          const_rule=True) -> PrinterTable:
     mapper = model.cls(mapper_key)
     sm = model.repo.module(STR)
     precs = _consts(model, sm, "PREC_")
@@ -285,7 +286,8 @@ def extract_printer_table(model, mapper_key=f"{STR}:StringifyMapper",
             table.handler_of["Tuple"] = f"{mem.owner.name}.map_tuple"
         except Unsupported as e:
             table.notes.append(f"Tuple: {e}")
-    table.const_rule = _extract_const_rule(model, mapper, precs)
+    if const_rule:
+        table.const_rule = _extract_const_rule(model, mapper, precs)
     return table
 
 
@@ -492,25 +494,67 @@ def _extract_const_rule(model, mapper, precs):
             break
         mem, fn = delegated, delegated.node
         hops += 1
-    src = ast.unparse(fn)
+    param = fn.args.args[1].arg
+    func = None
     thr = None
-    for c in ast.walk(fn):
-        if isinstance(c, ast.Compare) and ast.unparse(c.left) == "enclosing_prec" \
-                and isinstance(c.ops[0], (ast.Gt, ast.GtE)):
-            thr = (_fold(c.comparators[0], precs), ">" if isinstance(
-                c.ops[0], ast.Gt) else ">=")
     signs = set()
-    for c in ast.walk(fn):
-        if isinstance(c, ast.Compare) and isinstance(c.ops[0], ast.In) \
-                and isinstance(c.left, ast.Constant) \
-                and ast.unparse(c.comparators[0]) == "result":
-            signs.add(c.left.value)
-    if thr is None or "str(expr)" not in src.replace("x", "expr") and \
-            "str(" not in src:
-        raise AnalysisError("map_constant: parenthesisation rule not recognised")
-    return {"threshold": thr[0], "op": thr[1], "signs": tuple(sorted(signs)),
-            "where": mem.owner.module.loc(fn),
+    n_wrapped = n_bare = 0
+    for ps in summarize(fn, node_param=param):
+        if ps.term != "return":
+            continue
+        rv = ps.retval
+        inner = rv
+        wrapped = False
+        if rv[0] == "call" and rv[1] == "self.parenthesize" and rv[2]:
+            inner, wrapped = rv[2][0], True
+        elif rv[0] == "fstring" and len(rv[1]) == 3 and rv[1][0] == ("const", "(") \
+                and rv[1][2] == ("const", ")"):
+            inner, wrapped = rv[1][1], True
+        if inner[0] == "call" and inner[1] in ("str", "repr") and len(inner[2]) == 1:
+            func = inner[1] if func in (None, inner[1]) else "mixed"
+        elif inner[0] == "strformat" or (inner[0] == "call" and "format" in inner[1]):
+            continue      # complex constants etc.: not modelled
+        else:
+            continue
+        if not wrapped:
+            n_bare += 1
+            continue
+        n_wrapped += 1
+        for _, pol, v in ps.conds:
+            if not pol or not isinstance(v, tuple):
+                continue
+            for sub in _subterms(v):
+                if sub[0] == "compare" and sub[2] == ("param", "enclosing_prec") \
+                        and sub[1] in (("Gt",), ("GtE",)):
+                    thr = (_prec_value(sub[3][0], precs),
+                           ">" if sub[1] == ("Gt",) else ">=")
+                if sub[0] == "compare" and sub[1] == ("In",) \
+                        and sub[2][0] == "const" and isinstance(sub[2][1], str):
+                    signs.add(sub[2][1])
+    if func is None or func == "mixed":
+        raise AnalysisError("map_constant: neither str(expr) nor repr(expr)")
+    rule = {"func": func, "where": mem.owner.module.loc(fn),
             "handler": f"{mem.owner.name}.map_constant"}
+    if not n_wrapped:
+        # no parenthesisation rule at all: constants are emitted bare
+        rule.update({"threshold": None, "op": ">", "signs": ()})
+    elif thr is None or not signs:
+        raise AnalysisError("map_constant: parenthesisation condition not "
+                            "recognised")
+    else:
+        rule.update({"threshold": thr[0], "op": thr[1],
+                     "signs": tuple(sorted(signs))})
+    return rule
+
+
+def _subterms(v, depth=0):
+    if not isinstance(v, tuple) or depth > 20:
+        return
+    if v and isinstance(v[0], str):
+        yield v
+    for x in v:
+        if isinstance(x, tuple):
+            yield from _subterms(x, depth + 1)
 
 
 # ---------------------------------------------------------------------------
@@ -591,7 +635,9 @@ class ModelPrinter:
 
     def const(self, value, prec):
         r = self.t.const_rule
-        s = str(value)
+        s = repr(value) if r.get("func") == "repr" else str(value)
+        if r["threshold"] is None:
+            return s
         wrapped = s.startswith("(") and s.endswith(")")
         has_sign = any(x in s for x in r["signs"])
         over = prec > r["threshold"] if r["op"] == ">" else prec >= r["threshold"]
